@@ -986,7 +986,7 @@ def kneedle(rc: RuleCtx, rule_range: Optional[str], rule_link: Optional[str]):
     except Unsupported as e:
         raise AnalysisError(f"kneedle._knee: not modelled: {e}")
     ok_shape = True
-    for g, v in out.returns:
+    for g, v in [(g_and(g0, g1), v1) for g0, v0 in out.returns for g1, v1 in cases_of(v0)]:
         if isinstance(v, Obj) and v.tag == "none":
             continue
         if isinstance(v, Rat):
